@@ -74,6 +74,13 @@ def run_case(case):
         return Outcome(True, False, ["nonfinite_Z"], discard=True)
     ef = s.ef_wake(ps, imp, buckets, spacing, case["frev"], 1e-3, case["Ib"], 1.3e9, 4.7e-4, 1e-10)
     # earlier requests on the same object (other profiles, a cutoff) must not matter for "one and the same profile"
+    if case.get("intzero"):
+        # the grid was integrated while it was still empty (a phase space built from zeros, to be filled later) and only
+        # its projection is refreshed afterwards: the field works on the CURRENT profile, not on the total charge the
+        # grid remembers (round-10 seeds C06j / C07j return zeros when that remembered charge is zero)
+        for b in range(nb):
+            s.ps_set_projection(ps, 0, b, np.zeros(n, np.float32))
+        s.ps_op(ps, "integrate")
     for op in case.get("prelude", []):
         for b in range(nb):
             s.ps_set_projection(ps, 0, b, (r.random(n) * 3).astype(np.float32))
@@ -190,7 +197,8 @@ def cases(draw):
                 fmax=gen.f32(lg(1e10, 1e13)), frev=gen.f32(lg(1e6, 1e8)), gap=lg(5e-3, 0.1), cond=lg(1e5, 1e8),
                 xi=draw(st.sampled_from([0.0, 0.0, -0.5, 3.0])), collratio=draw(st.floats(0.1, 0.9)),
                 cutoffs=[gen.f32(lg(1e8, 1e13)) for _ in range(draw(st.integers(0, 3)))],
-                prelude=draw(st.lists(st.sampled_from([["csr", 0.0], ["csr", 1e10], ["csr", 3e11], ["wake"]]), max_size=2)))
+                prelude=draw(st.lists(st.sampled_from([["csr", 0.0], ["csr", 1e10], ["csr", 3e11], ["wake"]]), max_size=2)),
+                intzero=draw(st.integers(0, 3)) == 0)
 
 
 def subs(tier):
